@@ -92,11 +92,11 @@ theorem sortOrgsDesc_head_fittest (hw : C08.StrictWeak W) (he : EqLaw W) (l : Li
   intro x hx
   have hirr : orgLess top top = false := by
     rw [orgLess_false_iff]; exact ⟨hw.irrefl _, fun _ => hw.irrefl _⟩
-  have := goInsertionSort_head_min (fun a b : Org W => orgLess b a) (orgLess_laws hw he) l top rest h hirr x hx
+  have := goSort_head_min (fun a b : Org W => orgLess b a) (orgLess_laws hw he) l top rest h hirr x hx
   exact ⟨this, ((orgLess_false_iff _ _).mp this).1⟩
 
 /-- the sorted list is a permutation of the species' members: the champion is a member -/
-theorem sortOrgsDesc_perm (l : List (Org W)) : (sortOrgsDesc l).Perm l := goInsertionSort_perm _ l
+theorem sortOrgsDesc_perm (l : List (Org W)) : (sortOrgsDesc l).Perm l := goSort_perm _ l
 
 
 /-! non-vacuity: the hypotheses hold for the exact integer scalar (and hence describe a real order) -/
